@@ -3,6 +3,7 @@ import RTA.Model.XCurve
 import RTA.Model.Ros
 import RTA.Model.XCost
 import RTA.Spec.Naive
+import RTA.Spec.NaiveRos
 /-! Line-protocol driver: one operation per input line, one result per output line. -/
 
 namespace RTA.Driver
@@ -266,6 +267,55 @@ def evalNaive : List String → Option String
     pure (match tua, others with
       | some tua, some others => guardRBs (tua :: others) fun _ => Spec.naiveFp tua others b 0 lim
       | _, _ => "panic")
+  | "nv_ros_es" :: ts => do
+    let (s, ts) ← pSupply ts
+    let (r, ts) ← pRB ts
+    let (lim, _) ← pNat ts
+    pure (match r with
+      | some r => if s.WF then guardRBs [r] fun _ => Spec.naiveEventSource s r lim else "panic"
+      | none => "panic")
+  | "nv_ros_tm" :: ts => do
+    let (s, ts) ← pSupply ts
+    let (own, ts) ← pRB ts
+    let (interf, ts) ← pRB ts
+    let (b, ts) ← pNat ts
+    let (lim, _) ← pNat ts
+    pure (match own, interf with
+      | some own, some interf => if s.WF then guardRBs [own, interf] fun _ => Spec.naiveTimer s own interf b lim else "panic"
+      | _, _ => "panic")
+  | "nv_ros_pp" :: ts => do
+    let (s, ts) ← pSupply ts
+    let (own, ts) ← pRB ts
+    let (interf, ts) ← pRB ts
+    let (lim, _) ← pNat ts
+    pure (match own, interf with
+      | some own, some interf => if s.WF then guardRBs [own, interf] fun _ => Spec.naivePollingPoint s own interf lim else "panic"
+      | _, _ => "panic")
+  | "nv_ros_ch" :: ts => do
+    let (s, ts) ← pSupply ts
+    let (last, ts) ← pRB ts
+    let (pfx, ts) ← pRB ts
+    let (full, ts) ← pRB ts
+    let (others, ts) ← pRB ts
+    let (lim, _) ← pNat ts
+    pure (match last, pfx, full, others with
+      | some last, some pfx, some full, some others =>
+        if s.WF then guardRBs [last, pfx, full, others] fun _ => Spec.naiveChain s last pfx full others lim else "panic"
+      | _, _, _, _ => "panic")
+  | "nv_rr" :: ts => do
+    let (s, ts) ← pSupply ts
+    let ((wl, sub), ts) ← pWorkload ts
+    let (lim, _) ← pNat ts
+    pure (match wl with
+      | some wl => if s.WF && wlOk wl then (Spec.naiveRr s wl sub lim).toStr else "panic"
+      | none => "panic")
+  | "nv_bw" :: ts => do
+    let (s, ts) ← pSupply ts
+    let ((wl, sub), ts) ← pWorkload ts
+    let (lim, _) ← pNat ts
+    pure (match wl with
+      | some wl => if s.WF && wlOk wl then (Spec.naiveBw s wl sub lim).toStr else "panic"
+      | none => "panic")
   | "nv_edf_p" :: ts => do
     let (tua, ts) ← pRB ts
     let (d, ts) ← pNat ts
@@ -424,7 +474,10 @@ def evalAnalysis : List String → Option String
     let ((wl, sub), ts) ← pWorkload ts
     let (lim, _) ← pNat ts
     pure (match wl with
-      | some wl => if s.WF && wlOk wl then (bwSubchain s wl sub lim).toStr else "panic"
+      | some wl =>
+        if s.WF && wlOk wl then
+          (if bwDebugHangs s wl sub lim then "hang" else (bwSubchain s wl sub lim).toStr)
+        else "panic"
       | none => "panic")
   | _ => none
 
